@@ -763,3 +763,6 @@ def shrink(line):
 
 def exhaustive(tier):
     return True   # gen_small: every octet through the escaper, every Vary string up to the tier's length over an 8-symbol alphabet, all request pairs of the tiny scope
+
+
+KNOWN_MUST_MATCH_MODEL = True   # inside a known finding's region the observation must still equal the model's (which reproduces the listed defect); see lib/vf/run.py
